@@ -138,6 +138,23 @@ class _Sites(ast.NodeVisitor):
                 catches = True
                 summary = "; ".join(ast.unparse(s) for s in h.body)[:60]
         self.try_stack.append((catches, summary))
+        if catches:
+            # everything inside the swallowing scope that can raise KeyError: link lookups, attribute reads and plain dict
+            # subscripts, in source order.  A lookup added to the scope is swallowed together with the ones the handler was
+            # written for, so the scope's content is a row of its own.
+            self.n_try = getattr(self, "n_try", 0) + 1
+            inside = []
+            for st in node.body:
+                for sub in ast.walk(st):
+                    if isinstance(sub, ast.Subscript) and not _is_data_index(sub.slice) and not isinstance(sub.ctx, (ast.Store, ast.Del)):
+                        if isinstance(sub.value, ast.Attribute) and sub.value.attr == "attrs":
+                            inside.append((sub.lineno, sub.col_offset, "attr:" + _norm_key(sub.slice)))
+                        elif _h5ish(sub.value):
+                            inside.append((sub.lineno, sub.col_offset, "h5:" + _norm_key(sub.slice)))
+                        else:
+                            inside.append((sub.lineno, sub.col_offset, "py:" + _norm_key(sub.slice)))
+            content = "|".join(t for _, _, t in sorted(inside, key=lambda t: (t[2])))
+            self.rows.append((self.fname, f"swallow#{self.n_try}", "try", content[:400], f"{self.relfile}:{node.lineno}"))
         for s in node.body:
             self.visit(s)
         self.try_stack.pop()
@@ -181,7 +198,7 @@ class _Sites(ast.NodeVisitor):
         if isinstance(it, ast.Call) and isinstance(it.func, ast.Attribute) and it.func.attr == "items" and _h5ish(it.func.value) \
                 and not (isinstance(it.func.value, ast.Attribute) and it.func.value.attr == "attrs"):
             self._add("iter", ast.unparse(it.func), node, own_guard=("iter", "absent links are not visited"))
-        elif isinstance(it, ast.Name) and it.id in H5_NAMES:
+        elif isinstance(it, ast.Name) and (it.id in H5_NAMES or it.id in _LOCAL_H5):
             self._add("iter", it.id, node, own_guard=("iter", "absent links are not visited"))
         self.generic_visit(node)
 
